@@ -7,9 +7,9 @@ from . import harness as H
 from . import c13 as H13
 
 CHECKS = {
-    **{f"C03:numpy-{K}": (lambda K=K: H.chk_numpy(K, exclude_kids=("Count", "CountT") if K in ("UntypedLabel", "Branch") else ())) for K in H.CLASSES},
-    "C03:numpy-UntypedLabel-count-first": lambda: H.chk_numpy("UntypedLabel", only_kids=("Count", "CountT")),
-    "C03:numpy-Branch-count-first": lambda: H.chk_numpy("Branch", only_kids=("Count", "CountT")),
+    **{f"C03:numpy-{K}": (lambda K=K: H.chk_numpy(K, exclude_kids=("Count", "CountT", "CountTC") if K in ("UntypedLabel", "Branch") else ())) for K in H.CLASSES},
+    "C03:numpy-UntypedLabel-count-first": lambda: H.chk_numpy("UntypedLabel", only_kids=("Count", "CountT", "CountTC")),
+    "C03:numpy-Branch-count-first": lambda: H.chk_numpy("Branch", only_kids=("Count", "CountT", "CountTC")),
     "C11:pickle": lambda: H.chk_pickle(),
     "C16:sharing": lambda: H.chk_sharing(),
     "C06:Bag.json": lambda: H.chk_tojson_frame("Bag"),
@@ -17,6 +17,7 @@ CHECKS = {
     "C15:version": lambda: H.chk_version(),
     "C04:Bag.json": lambda: H.chk_json("Bag", "reserialises-identically") or H.chk_json("Bag", "usable"),
     "C15:Bag.json": lambda: H.chk_c15("Bag"),
+    "C04:Stack.build": lambda: H.chk_stack_build(),
     "C09:Bag.__eq__": lambda: H.chk_eq("Bag", "sound") or H.chk_eq("Bag", "complete") or H.chk_eq("Bag", "no-raise") or H.chk_eq("Bag", "sound", True) or H.chk_eq("Bag", "complete", True) or H.chk_eq("Bag", "no-raise", True),
     "C06:Bag.__eq__": lambda: H.chk_frame("Bag", "__eq__") or H.chk_frame("Bag", "__ne__"),
     **H13.CHECKS,
